@@ -96,6 +96,7 @@ pub fn run(out: &mut Out, seed: u64, tier: &str) {
         } }
     }
     let (mut n, mut n_dom, mut moved_n, mut worst_rise) = (0usize, 0usize, 0usize, 0.0f64);
+    let mut n_conv = 0usize;
     for m in mols.iter() {
         for kind in ["uff", "rb"] {
             let r = match optimise_checked(m, kind) { Some(r) => r, None => continue };
@@ -105,6 +106,24 @@ pub fn run(out: &mut Out, seed: u64, tier: &str) {
             if !in_domain(m, r.e0) { continue; }
             n_dom += 1;
             if r.xf.iter().zip(m.xs.iter()).any(|(a, b)| a != b) { moved_n += 1; }
+            // "a starting structure that already satisfies the convergence criterion is returned unchanged": hand the result back
+            // whenever it satisfies sqrt(mean |g_i|) < 0.1 under a fresh force field, and expect the very same coordinates
+            if r.xf.iter().all(|p| p.iter().all(|v| v.is_finite())) {
+                let start2 = Mol { name: m.name.clone(), zs: m.zs.clone(), xs: r.xf.clone() };
+                if let Some(mut mol2) = catch(|| { let mut b = m.build(); b.coordinates = start2.points(); b }) {
+                    if let Some(mut ff2) = catch(|| m.build()).and_then(|orig| FF::build(kind, &orig)) {
+                        let g = ff2.gradient(&mol2.coordinates);
+                        let mean = g.chunks(3).map(|c| (c[0] * c[0] + c[1] * c[1] + c[2] * c[2]).sqrt()).sum::<f64>() / m.n() as f64;
+                        if mean.sqrt() < 0.1 {
+                            n_conv += 1;
+                            if catch(|| mol2.optimise(ff2.as_dyn())).is_some() {
+                                let same = mol2.coordinates.iter().zip(r.xf.iter()).all(|(p, q)| p.x.to_bits() == q[0].to_bits() && p.y.to_bits() == q[1].to_bits() && p.z.to_bits() == q[2].to_bits());
+                                if !same { out.oracle_fail(&format!("{}: a start that already satisfies the convergence criterion (sqrt of the mean atomic gradient norm {:.4} < 0.1) was not returned unchanged", kind, mean.sqrt()), &format!("{} optimise of\n{}", kind, start2.xyz_text())); }
+                            }
+                        }
+                    }
+                }
+            }
             let rise = r.e1 - r.e0;
             if rise > worst_rise { worst_rise = rise; }
             if !(r.e1 <= r.e0 + 1e-9 * r.e0.abs().max(1.0)) {
@@ -118,6 +137,7 @@ pub fn run(out: &mut Out, seed: u64, tier: &str) {
     out.stat("optimisations", n);
     out.stat("inside_domain", n_dom);
     out.stat("moved", moved_n);
+    out.stat("converged_results_handed_back", n_conv);
     out.stat("largest_energy_rise", format!("{:e}", worst_rise));
     out.sample("uff optimise of distorted methanol: E0 -> E1 <= E0");
 }
